@@ -372,15 +372,19 @@ def normalizeMass (mass : R) (ws : List R) : List R :=
   let m := sumL u
   if truthy m = false then ws.map (· * 0) else (u.map (mass * ·)).map (· / m)
 
+/-- inner loop body of `impose_collapse` (measures.py l.1792-1795) for one member `k` of the group of `i`
+    (`xi = samples[i]`): `v += weights[k]; weights[k] = 0; samples[k] = samples[i]`; state `(v, samples, weights)` -/
+def collapseStep (xi : R) (acc : R × List R × List R) (k : Nat) : R × List R × List R :=
+  match acc.2.2[k]? with
+  | some wk => (acc.1 + wk, acc.2.1.set k xi, acc.2.2.set k 0)
+  | none => acc
+
 /-- one group `i: {k..}` of `connected(pairs)` in `impose_collapse` (l.1790-1796):
     `v = w[i]; for k: v += w[k]; w[k] = 0; x[k] = x[i]; w[i] = v` -/
 def collapseGroup (xw : List R × List R) (g : Nat × List Nat) : List R × List R :=
   match xw.1[g.1]?, xw.2[g.1]? with
   | some xi, some wi =>
-    let r := g.2.foldl (fun (acc : R × List R × List R) k =>
-      match acc.2.2[k]? with
-      | some wk => (acc.1 + wk, acc.2.1.set k xi, acc.2.2.set k 0)
-      | none => acc) (wi, xw.1, xw.2)
+    let r := g.2.foldl (collapseStep xi) (wi, xw.1, xw.2)
     (r.2.1, r.2.2.set g.1 r.1)
   | _, _ => xw
 
@@ -401,15 +405,24 @@ def imposeUnweighted (inf : R) (index : List Nat) (xs ws : List R) : List R × L
 
 def rebuild (xw : List R × List R) : Measure R := List.zipWith (fun x w => ⟨w, x⟩) xw.1 xw.2
 
-/-- the body of `impose_measure(npts, tracking, noweight)(f)` before `f`: load, collapse, unweight, flatten -/
+/-- one `c[k].positions, c[k].weights = impose_collapse(v, c[k].positions, c[k].weights)` (constraints.py l.1814) -/
+def collapseAt (inf : R) (c : PM R) (kv : Nat × List (Nat × List Nat)) : PM R :=
+  c.modify kv.1 fun m => rebuild (imposeCollapse inf kv.2 (mpositions m) (mweights m))
+
+/-- one `c[k].positions, c[k].weights = impose_unweighted(v, c[k].positions, c[k].weights, False)` (l.1818) -/
+def unweightAt (inf : R) (c : PM R) (kv : Nat × List Nat) : PM R :=
+  c.modify kv.1 fun m => rebuild (imposeUnweighted inf kv.2 (mpositions m) (mweights m))
+
+/-- l.1812-1819: all collapses of `tracking` in order, then all of `noweight` in order -/
+def imposeOn (inf : R) (tracking : List (Nat × List (Nat × List Nat))) (noweight : List (Nat × List Nat))
+    (c : PM R) : PM R :=
+  noweight.foldl (unweightAt inf) (tracking.foldl (collapseAt inf) c)
+
+/-- the body of `impose_measure(npts, tracking, noweight)(f)` before `f` (l.1808-1821): load, collapse,
+    unweight, flatten -/
 def imposeMeasure (inf : R) (npts : List Nat) (tracking : List (Nat × List (Nat × List Nat)))
     (noweight : List (Nat × List Nat)) (x : List R) : Option (List R) :=
-  (load [] x npts).map fun c =>
-    let c1 := tracking.foldl (fun (c : PM R) kv =>
-      c.modify kv.1 fun m => rebuild (imposeCollapse inf kv.2 (mpositions m) (mweights m))) c
-    let c2 := noweight.foldl (fun (c : PM R) kv =>
-      c.modify kv.1 fun m => rebuild (imposeUnweighted inf kv.2 (mpositions m) (mweights m))) c1
-    flatten c2
+  (load [] x npts).map fun c => flatten (imposeOn inf tracking noweight c)
 
 end num
 
